@@ -366,10 +366,10 @@ func (p proxyHandler) writeResponse(rw http.ResponseWriter, res *http.Response) 
 	var err error
 	switch {
 	case isTextEventStream(res):
-		w := newPatternFlushWriter(rw, http.NewResponseController(rw), sseFlushPattern)
+		w := newPatternFlushWriter(rw, http.NewResponseController(rw), sseFlushPatterns...)
 		err = copyBody(w, res.Body)
 	case shouldChunk(res):
-		w := newPatternFlushWriter(rw, http.NewResponseController(rw), chunkFlushPattern)
+		w := newPatternFlushWriter(rw, http.NewResponseController(rw), chunkFlushPatterns...)
 		err = copyBody(w, res.Body)
 	default:
 		err = copyBody(rw, res.Body)
